@@ -15,6 +15,7 @@ import (
 	"fmt"
 	"math/rand"
 	"net"
+	"os"
 	"sort"
 	"strings"
 	"sync"
@@ -313,7 +314,7 @@ func e2eSession(c *vh.Ctx, idx int) {
 		}
 		return ps
 	}
-	planE, planH := mkPlan(1000+idx*20), mkPlan(2000+idx*20)
+	planE, planH := mkPlan(1000), mkPlan(2000) // tokens are per session: fresh endpoints, fresh logs
 	start := make(chan struct{})
 	var wg sync.WaitGroup
 	run := func(e *e2eEnd, ps []plan, out *[]sendRec) {
@@ -370,8 +371,8 @@ func e2eSession(c *vh.Ctx, idx int) {
 		}
 		return false
 	}
-	okE := sentinel(equip, host, 9000+idx*100)
-	okH := sentinel(host, equip, 9500+idx*100)
+	okE := sentinel(equip, host, 9000)
+	okH := sentinel(host, equip, 9500)
 	if !okE || !okH {
 		c.Fail("the link did not recover after the faults stopped (sentinel never delivered)", fmt.Sprintf("limit=%d pct=%d equip->host=%v host->equip=%v", limit, pct, okE, okH))
 		return
@@ -464,6 +465,11 @@ func e2eSession(c *vh.Ctx, idx int) {
 func e2e(c *vh.Ctx) {
 	logger.SetLevel(logger.FatalLevel)
 	for i := 0; i < c.N; i++ {
+		t0 := time.Now()
 		e2eSession(c, i)
+		if d := time.Since(t0); d > 5*time.Second {
+			c.Count("M/slow-session")
+			fmt.Fprintf(os.Stderr, "slow session %d: %v\n", i, d)
+		}
 	}
 }
